@@ -266,10 +266,42 @@ def agent_stop_on_close(chk):
     return fails
 
 
+def close_with_queue(chk):
+    ''' The connection goes down without a SESS_TERM exchange while bundles are queued: terminate() before the session
+    is established, close(), the peer closing (end of stream), before and after establishment. '''
+    recs = []
+    for established in (False, True):
+        for how in ('close', 'term', 'peer-close', 'peer-term'):
+            for nsend in (1, 3):
+                runner = TC.Runner(cfg_a=dict(segment_size_tx_initial=4), cfg_b=dict(segment_size_tx_initial=3))
+                runner.apply(('start', 'A'))
+                runner.apply(('start', 'B'))
+                if established:
+                    TC.drain(runner)
+                for idx in range(nsend):
+                    runner.apply(('send', 'A', ('lit', bytes(range(idx * 5)))))
+                runner.apply(('send', 'B', ('lit', b'zz')))
+                if established:
+                    # let the first transfer start, the others stay queued
+                    runner.apply(('pq', 'A'))
+                if how == 'close':
+                    runner.apply(('close', 'A'))
+                elif how == 'term':
+                    runner.apply(('term', 'A', 0))
+                elif how == 'peer-close':
+                    runner.apply(('close', 'B'))
+                else:
+                    runner.apply(('term', 'B', 0))
+                TC.drain(runner)
+                recs.append(TS.finish(runner, 'close-with-queue', dict(quiescent=True, established=established, how=how, nsend=nsend)))
+    return recs
+
+
 def build(chk):
     recs = []
     positions = list(range(0, 40, 3)) if chk.quick() else list(range(0, 80))
     recs += term_everywhere(chk, 11, positions, 1 << 30, 1 << 30)
+    recs += close_with_queue(chk)
     recs += term_everywhere(chk, 12, positions[::2], 1, 1 << 30)
     recs += term_everywhere(chk, 13, positions[::2], 1 << 30, 2)
     # termination while the peer refuses / acknowledges transfers that are queued, in flight or awaiting their
@@ -324,7 +356,8 @@ if __name__ == '__main__':
     TS.run_check('C09', build, evaluate,
                  rule='a fixed three-bundle two-way workload with terminate() on A, B or both inserted at every position of a '
                       'round-robin schedule (full writes, 1-octet writes, 2-octet reads), then drained to quiescence; plus random '
-                      'cooperative schedules with terminate() at random positions; agent-level: 1-3 contacts in every '
+                      'cooperative schedules with terminate() at random positions; close(), terminate() before establishment and peer '
+                      'disconnect with bundles queued (every accepted bundle that never started must be reported); agent-level: 1-3 contacts in every '
                       'pre-session/established order under shutdown()/stop(), and 2-3 contacts with stop_on_close off/on where one '
                       'contact closes (peer terminates, own terminate, peer disconnect) while another has a transfer in progress; '
                       'non-trivial = a SESS_TERM reached the wire',
